@@ -636,10 +636,10 @@ func enumC19(L int, mine func(int) bool, visit func(C19Case)) int {
 func TestC19(t *testing.T) {
 	r := newRun(t, "C19")
 	defer r.finish()
-	L := r.pick(2, 3)
+	L := r.pick(2, 4)
 	n := enumC19(L, r.mine, func(c C19Case) { evalCase(r, "enum-sequences", c, checkC19) })
 	r.exhaustive(fmt.Sprintf("every sequence of up to %d settings over {max retries, wait, batch concurrency, batch error handling} x 3 values x {constructor option, builder method, option applied to the embedded BaseNode later}, for NewNode and NewBatchNode: %d cases, each compared with its all-option and all-builder realisation", L, n))
-	rapidPart(r, "rand-sequences", r.pick(3000, 50000), genC19, checkC19)
+	rapidPart(r, "rand-sequences", r.pick(3000, 120000), genC19, checkC19)
 	// "a pool size <= 0 means one worker"
 	for i, size := range []int{0, -1, -7} {
 		if r.mine(i) {
